@@ -125,7 +125,9 @@ def plan(pid, tier, seed):
                 cfg = gen.cfg_choices(rng, rng.random() < small_cache)
                 if rng.random() < 0.3:
                     cfg = {}
-                st = gen.flush_history(rng, calls, cfg) if rng.random() < 0.5 else gen.purge_history(rng, calls, cfg)
+                # a quarter of the runs also suffer injected I/O faults (failed fdatasync, torn write) before the crash
+                nf = rng.choice([0, 0, 0, 1, 2])
+                st = gen.flush_history(rng, calls, cfg, faults=nf) if rng.random() < 0.5 else gen.purge_history(rng, calls, cfg, faults=nf)
                 out.append(dict(mode=rng.choice(["free", "jitter"]), tag="crashprobe", steps=st,
                                 probes={"crash": {"stride": 1 if q else 1, "per_pos": 6 if q else 16, "cont": True,
                                                   "bytes": not q, "gen2": gen2}}))
@@ -222,9 +224,11 @@ def plan(pid, tier, seed):
                     st.append(gen.legal_op(rng, m, j))
                     if rng.random() < 0.3:
                         st.append({"a": "lock_try", "kind": rng.choice(["open", "dump"])})
-                st += [{"a": "flush"}, {"a": "wait_cb"}, {"a": "wait_idle"}, {"a": "lock_try", "kind": "dump"},
+                st += [{"a": "flush"}, {"a": "wait_cb"}, {"a": "wait_idle"}, {"a": "lk_child_race", "k": 2},
+                       {"a": "lock_try", "kind": "dump"},
                        {"a": "lock_try", "kind": "open"}, {"a": "drop"},
                        {"a": "lk_race", "threads": rng.choice([2, 4, 8]), "rounds": 12 if q else 60},
+                       {"a": "lk_child_race", "k": rng.choice([2, 3, 4])},
                        {"a": "lock_try", "kind": "dump"},
                        {"a": "lock_try", "kind": "open"}, {"a": "open", "cfg": cfg}, {"a": "lock_try", "kind": "open"},
                        {"a": "read", "from": 0, "to": MAXI}]
